@@ -62,7 +62,7 @@ def error_replies(log):
             except Exception:
                 continue
             if isinstance(b, dict) and b.get("errorType"):
-                out.add((fr.get("props") or {}).get("correlation_id"))
+                out.add(base_id((fr.get("props") or {}).get("correlation_id")))
     return out
 
 
@@ -71,7 +71,7 @@ def requested(log):
     out = set()
     for fr in log:
         if fr["op"] == "publish" and fr.get("conn") != "worker":
-            cid = (fr.get("props") or {}).get("correlation_id")
+            cid = base_id((fr.get("props") or {}).get("correlation_id"))
             if cid is not None:
                 out.add(cid)
     return out
@@ -91,12 +91,25 @@ def error_names(log):
         if fr["op"] == "publish" and fr.get("conn") == "worker" and str(fr.get("routing_key", "")).startswith(RPQ):
             b = body_of(fr)
             if isinstance(b, dict) and b.get("errorType"):
-                out[(fr.get("props") or {}).get("correlation_id")] = b["errorType"]
+                out[base_id((fr.get("props") or {}).get("correlation_id"))] = b["errorType"]
     return out
 
 
 UNRECOVERABLE = ("States.Runtime", "States.ExecutionTimeout", "States.ExecutionHistoryLimitExceeded", "Task.Terminated")
 FUNCTION = "arn:aws:rpcmessage:local::function:"
+
+
+def base_id(cid):
+    """the id of the Task event behind a correlation id: the "long form" of a function call (Resource …:rpcmessage:invoke)
+    sends its request under the event id with the suffix `.invoke`"""
+    if isinstance(cid, str) and cid.endswith(".invoke"):
+        return cid[:-len(".invoke")]
+    return cid
+
+
+def is_function_call(st):
+    res = str((st or {}).get("Resource", ""))
+    return res.startswith(FUNCTION) or res.endswith(":rpcmessage:invoke")
 SYNC_CHILD = "arn:aws:states:::states:startExecution.sync"
 
 
@@ -300,7 +313,7 @@ def skeleton(machines, lab, plans=None):
                     kb = Build(kid.execution, km)
                     item = {"child": kb.seq((), 0, []), "rc": v.rc}
                     error = "States.TaskFailed" if ended.get(kid.execution) == "FAILED" else None
-                elif res.startswith(FUNCTION):
+                elif is_function_call(st):
                     item = {"T": v.rc} if v.rc else "T"
                     if v.mid not in reqd:
                         # dropped before its deferred handler ran (its fan-out had failed): what it would have led to is not known
@@ -431,6 +444,10 @@ def legacy_view(skel, depth=0):
             if any(b is None for b in brs):
                 return None
             out.append({"par": brs, "mc": t.get("mc", 0)})
+            if '"X"' in json.dumps(brs):
+                # (the execution fails there in the crash-free run: what follows in `skel` is the static continuation, for
+                # the runs in which a crash keeps the failure from arriving; the reference semantics stops at the failure)
+                break
         elif isinstance(t, dict) and "fail" in t:
             if t["fail"] is not None or not last or not out:
                 return None
@@ -503,7 +520,7 @@ class Labeller(object):
                 if q.startswith(EVQ):
                     label = ("ev", d[0].get("message_id"))
                 elif q.startswith(RPQ):
-                    label = ("rp", d[0].get("correlation_id"))
+                    label = ("rp", base_id(d[0].get("correlation_id")))
                 else:
                     label = ("?", q)
         elif step[0] == "crash":
@@ -549,6 +566,7 @@ class Labeller(object):
                 sched = sched[:i]
                 break
         if any(op[0] == "?" for op in sched):
+            self.why = sorted({str(op[1]) for op in sched if op[0] == "?"})
             return None
         om = ordinals(self.s.broker.log)
         out = []
@@ -593,6 +611,8 @@ def engine_observation(s, ea, fv, terms, reqs, detail):
     def name(x):
         if x in om:
             return om[x]
+        if base_id(x) in om:
+            return om[base_id(x)]
         if owner.get(x) in om:
             return om[owner[x]]
         return x
